@@ -680,7 +680,7 @@ def r6_hash_agrees_with_eq(ctx):
                     or (isinstance(call.func, ast.Attribute) and
                         call.func.attr == '__hash__')):
                 reads.add('<identity>')
-        exact, loose = set(), set()
+        exact, loose, seq_exact = set(), set(), set()
         rets = [r for r in walk_no_nested(eq.node)
                 if isinstance(r, ast.Return) and r.value is not None]
         for r in rets:
@@ -695,9 +695,33 @@ def r6_hash_agrees_with_eq(ctx):
                         isinstance(v.comparators[0], ast.Attribute) and \
                         v.comparators[0].attr == v.left.attr:
                     exact.add(v.left.attr)
+                elif isinstance(v, ast.Compare) and len(v.ops) == 1 and \
+                        isinstance(v.ops[0], ast.Eq) and \
+                        isinstance(v.left, ast.Call) and \
+                        isinstance(v.comparators[0], ast.Call) and \
+                        isinstance(v.left.func, ast.Name) and \
+                        unparse(v.left.func) == \
+                        unparse(v.comparators[0].func) and \
+                        v.left.func.id in m.functions and \
+                        len(_self_reads(v.left)) == 1 and \
+                        all(isinstance(a, ast.Attribute) for a in v.left.args):
+                    # N(self.x) == N(other.x) with N a module-level
+                    # normaliser: exact up to sequence type; a hash may use
+                    # tuple(self.x)
+                    seq_exact |= _self_reads(v.left)
                 else:
                     loose |= _self_reads(v)
         exact -= loose
+        for a in sorted(seq_exact - loose):
+            in_tuple = [x for c2 in walk_no_nested(h.node)
+                        if isinstance(c2, ast.Call) and
+                        isinstance(c2.func, ast.Name) and
+                        c2.func.id == 'tuple'
+                        for x in ast.walk(c2) if is_self_attr(x, a)]
+            all_reads = [x for x in walk_no_nested(h.node)
+                         if is_self_attr(x, a)]
+            if all_reads and len(in_tuple) == len(all_reads):
+                exact.add(a)
         bad = sorted(reads - exact)
         if not bad:
             ctx.ok(h, '__hash__ depends only on state __eq__ compares '
